@@ -14,7 +14,7 @@ RULE = ("fault classes enumerated completely: CKDpriv (normal and hardened) IL i
         "2^256-1, random>=n}; BIP85 secret in {0, n, n+1, 2^256-1, random>=n} for wif and for the key half of xprv; x parents "
         "(scalar/depth/form classes) x index kinds; control group = nearest valid outputs must return and agree with the "
         "reference; fault sequences alternate invalid/valid stubs on the same parent; distinct = distinct (monitor, case) digests"
-        " EXTENSIONS: + every derivation entry point, parents at depth 255, revisits under a fixed index->output table")
+        " EXTENSIONS: + every derivation entry point, parents at depth 255, revisits under a fixed index->output table, BIP85 requests whose own walk meets IL >= n or IL = n - k_par at any hardened step")
 LEVEL_TEXT = ("The HMAC is replaced from outside by a chosen-output function (the real arithmetic after the PRF runs "
               "unchanged), driving every 2^-127-probability branch: each invalid output must end in an exception, a returned "
               "node/string is the violation; valid neighbours must return the reference result, so over-rejection or an "
@@ -188,6 +188,61 @@ def judge_bip85(ctx, case):
                      mech="C18.control.wrong_bip85")
 
 
+def judge_bip85_inner(ctx, case):
+    """A BIP85 request whose OWN derivation walk (m/83696968'/app'/...) meets an invalid child at one of its hardened steps:
+    the PRF returns the chosen IL for exactly the (chain code, 00||k_par||ser32(i)) of that step and the real HMAC everywhere
+    else.  IL >= n, and IL = n - k_par (child key 0), must end the request with an error whichever way BIP85 walks its path."""
+    import btc_hd_wallet.bip85 as b85mod
+    import btc_hd_wallet.bip32 as b32
+    xk = rb32.XKey(case["k"], None, case["c"])
+    app, idx, level = case["app"], case["index"], case["level"]
+    path = {"wif": lambda: rb85.path_wif(idx), "xprv": lambda: rb85.path_xprv(idx), "hex": lambda: rb85.path_hex(32, idx),
+            "pwd": lambda: rb85.path_pwd(21, idx), "mnemonic": lambda: rb85.path_mnemonic(12, idx)}[app]()
+    level = min(level, len(path) - 1)
+    try:
+        par = rb32.derive(xk, path[:level])
+    except rb32.InvalidChild:
+        return None
+    il = {"n-kpar": (N - par.k) % N or N, "n": N, "n+1": N + 1, "top": TOP}.get(case["ftag"])
+    if il is None:
+        il = case["IL"]
+    I = il.to_bytes(32, "big") + case["IR"]
+    want_key, want_msg = par.c, b"\x00" + rb32.ser256(par.k) + path[level].to_bytes(4, "big")
+
+    def plan(key, msg):
+        return I if (bytes(key) == want_key and bytes(msg) == want_msg) else None
+    b = b85mod.BIP85DeterministicEntropy(master_node=bridge.mk_node(xk, False, case.get("form", "ctor")))
+    with inject.PRFStub([b85mod, b32], plan=plan) as stub:
+        try:
+            r = {"wif": lambda: b.wif(index=idx), "xprv": lambda: b.xprv(index=idx), "hex": lambda: b.hex(num_bytes=32, index=idx),
+                 "pwd": lambda: b.pwd(pwd_len=21, index=idx), "mnemonic": lambda: b.bip39_mnemonic(word_count=12, index=idx)}[app]()
+            err = None
+        except Exception as e:  # noqa
+            r, err = None, e
+    used = sum(1 for c_ in stub.calls if c_[3])
+    if not used:
+        # (the walk did not ask for that step's HMAC in the expected layout: nothing was injected, nothing to judge)
+        ctx.extra["bip85_inner_fault_not_consulted"] = ctx.extra.get("bip85_inner_fault_not_consulted", 0) + 1
+        return None
+    invalid = il >= N or (il + par.k) % N == 0
+    if invalid:
+        return ctx.judge("fault.bip85", err is not None, case, "raise", err if err is not None else r, cls="bip85-inner|%s|L%d|%s" % (app, level, case["ftag"]),
+                         outcome="raised" if err is not None else "returned", mech="C18.bip85.inner_step.returned")
+    if err is not None:
+        return ctx.judge("control", False, case, "string", err, cls="ctl|bip85-inner|" + app, mech="C18.control.over_rejects")
+    child = rb32.XKey((il + par.k) % N, None, case["IR"], par.depth + 1, path[level], par.fingerprint())
+    try:
+        final = rb32.derive(child, path[level + 1:])
+    except rb32.InvalidChild:
+        return None
+    from ..ref.hashes import hmac_sha512 as _ref_hmac
+    ent = _ref_hmac(b"bip-entropy-from-k", rb32.ser256(final.k))
+    if app not in ("wif", "xprv"):
+        return ctx.judge("control", isinstance(r, str) and len(r) > 0, case, "string", r, cls="ctl|bip85-inner|" + app, mech="C18.control.wrong_bip85")
+    want = rb85.wif_from_entropy(ent) if app == "wif" else rb85.xprv_from_entropy(ent)
+    return ctx.judge("control", r == want, case, want, r, cls="ctl|bip85-inner|%s|L%d" % (app, level), mech="C18.control.wrong_bip85")
+
+
 def judge_sequence(ctx, case):
     """A fixed chosen-output PRF (a FUNCTION of the child index: some indexes map to invalid outputs, others to valid
     ones) and a sequence of requests on the SAME parent object that revisits indexes: an invalid child must be refused
@@ -308,6 +363,12 @@ def run(ctx):
                 other = rnd.choice([b"\x00" * 32, N.to_bytes(32, "big"), gen.rbytes(rnd, 32), (1).to_bytes(32, "big")])
                 judge_bip85(ctx, {"k": k, "c": gen.rbytes(rnd, 32), "app": app, "index": rnd.choice([0, 1, H - 1]), "secret": sec,
                                   "other": other, "ftag": ftag})
+    for j in range(ctx.scale(24, 1200)):
+        ktag, k = gen.scalar(rnd)
+        for app in ("wif", "xprv", "hex", "pwd", "mnemonic"):
+            for ftag in ("n-kpar", "n", "n+1", "top", "valid"):
+                judge_bip85_inner(ctx, {"k": k, "c": gen.rbytes(rnd, 32), "app": app, "index": rnd.choice([0, 1, H - 1]), "level": rnd.randrange(0, 5),
+                                        "ftag": ftag, "IL": rnd.randrange(1, N), "IR": gen.rbytes(rnd, 32), "form": rnd.choice(["ctor", "str"])})
     for j in range(ctx.scale(48, 3000)):
         base = gen_parent(rnd)
         side = ("prv", "pub")[j & 1]
@@ -331,11 +392,15 @@ def replay(ctx, monitor, case):
         judge_fault_ckd(ctx, case)
     elif monitor == "fault.master":
         judge_master(ctx, case)
+    elif monitor == "fault.bip85" and "level" in case:
+        judge_bip85_inner(ctx, case)
     elif monitor == "fault.bip85":
         judge_bip85(ctx, case)
     elif monitor == "sequence" or "table" in case:
         case["table"] = [tuple(s) for s in case["table"]]
         judge_sequence(ctx, case)
+    elif "app" in case and "level" in case:
+        judge_bip85_inner(ctx, case)
     elif "app" in case:
         judge_bip85(ctx, case)
     elif "seed" in case:
